@@ -105,6 +105,18 @@ def check(repo, tier):
                     sign = 1
                     for k, c in enumerate(res._attrs['cores']):
                         stores, probs = blocks.analyse(c)
+                        ex = c.tags.get('expr') if isinstance(c, Arr) else None
+                        vv = c
+                        while not stores and isinstance(vv, Arr) and vv.origin in ('astype', 'copy') and vv.parents and not ex:
+                            vv = vv.parents[0]
+                            ex = vv.tags.get('expr')
+                        if not stores and ex and ex[0] in ('add', 'sub') and all(isinstance(o_, Arr) for o_ in ex[1]):
+                            # the core is written directly as  A + B  (legitimate where the two blocks coincide, i.e. for order 1): two additive full blocks
+                            full = tuple(('all',) for _ in c.shape)
+                            second = ex[1][1] if ex[0] == 'add' else -ex[1][1]
+                            stores = [{'sel': full, 'value': ex[1][0], 'mode': 'set', 'node': None}, {'sel': full, 'value': second, 'mode': 'add', 'node': None}]
+                            if not (d == 1):
+                                probs = [('overlap', stores[0], stores[1], 'the cores of the operands are added entry-wise although the sum needs separate blocks')]
                         srcs = [follow(st['value']) for st in stores]
                         names = sorted(str(s[0]) for s in srcs)
                         good = not probs and names == sorted([str(('a', k)), str(('b', k))])
